@@ -90,31 +90,7 @@ def run(ctx):
     # ---- R4 ----------------------------------------------------------------------
     ctx.rule('C19.R4', 'TypeHint(h) goes through the locked cache keyed by the hint (cache_or_get_cached_func_return_'
              'passed_arg with key=hint) and unhashable hints fall back to an uncached wrapper (except TypeError)')
-    mm = repo.mod('beartype.door._cls.doormeta')
-    call = repo.find_def(mm.name, '_TypeHintMetaclass.__call__', required=False)
-    if call is None:
-        for c in [n for n in mm.tree.body if isinstance(n, ast.ClassDef)]:
-            for f in c.body:
-                if isinstance(f, ast.FunctionDef) and f.name == '__call__':
-                    call = f
-    ctx.require(call is not None, 'anchor vanished: TypeHint metaclass __call__')
-    cs = [c for c in walk_shallow(call) if isinstance(c, ast.Call) and isinstance(c.func, ast.Attribute)
-          and c.func.attr == 'cache_or_get_cached_func_return_passed_arg' and isinstance(c.func.value, ast.Name)]
-    hp = params_of(call)[1] if len(params_of(call)) > 1 else 'hint'
-    ok = len(cs) == 1 and {k.arg: norm(k.value) for k in cs[0].keywords}.get('key') == hp \
-        and {k.arg: norm(k.value) for k in cs[0].keywords}.get('arg') == hp
-    ctx.ob('C19.R4', 'TypeHint.__call__:cached-by-hint', mm.where(call), 'the wrapper cache is keyed by the hint itself', ok,
-           norm(cs[0])[:120] if cs else 'no cache call')
-    # the cache object, whatever it is called and wherever it is defined (here or in a sibling module)
-    tab = []
-    if cs:
-        nm = cs[0].func.value.id
-        r = repo.resolve_name(mm, call, nm)
-        dm = repo.modules.get(r.module) if getattr(r, 'module', None) else None
-        tab = [(dm, st) for st in (dm.assigns.get(r.name, []) if dm is not None else [])] or [(mm, st) for st in mm.assigns.get(nm, [])]
-    ok = bool(tab) and isinstance(tab[-1][1].value, ast.Call) and any(k.arg == 'lock_type' for k in tab[-1][1].value.keywords)
-    ctx.ob('C19.R4', 'wrapper-cache:locked', tab[-1][0].where(tab[-1][1]) if tab else mm.where(call), 'the cache carries its own lock', ok,
-           norm(tab[-1][1])[:100] if tab else 'cache definition not found')
+    typehint_cache(ctx, 'C19.R4')
     um = repo.mod('beartype._util.cache.map.utilmapunbounded')
     cf = repo.find_def(um.name, 'CacheUnboundedStrong.cache_or_get_cached_func_return_passed_arg')
     ok = any(isinstance(t, ast.Try) and any(dotted(h.type) == 'TypeError' and any(
@@ -267,3 +243,34 @@ def _subhint_soundness(ctx, repo):
                    'a possibly-true equality is decided between wrappers of the same sign / class', ok,
                    f'returns `{txt[:70]}` under {guards}')
     ctx.floor('C19.R8', n, 2, 'possibly-true returns of _is_equal overrides')
+
+
+def typehint_cache(ctx, RULE):
+    """TypeHint(h) is looked up in a locked cache keyed by the hint itself (shared with C03.R5: a wrapper obtained for one
+    hint must check against that hint)."""
+    repo = ctx.repo
+    mm = repo.mod('beartype.door._cls.doormeta')
+    call = repo.find_def(mm.name, '_TypeHintMetaclass.__call__', required=False)
+    if call is None:
+        for c in [n for n in mm.tree.body if isinstance(n, ast.ClassDef)]:
+            for f in c.body:
+                if isinstance(f, ast.FunctionDef) and f.name == '__call__':
+                    call = f
+    ctx.require(call is not None, 'anchor vanished: TypeHint metaclass __call__')
+    cs = [c for c in walk_shallow(call) if isinstance(c, ast.Call) and isinstance(c.func, ast.Attribute)
+          and c.func.attr == 'cache_or_get_cached_func_return_passed_arg' and isinstance(c.func.value, ast.Name)]
+    hp = params_of(call)[1] if len(params_of(call)) > 1 else 'hint'
+    ok = len(cs) == 1 and {k.arg: norm(k.value) for k in cs[0].keywords}.get('key') == hp \
+        and {k.arg: norm(k.value) for k in cs[0].keywords}.get('arg') == hp
+    ctx.ob(RULE, 'TypeHint.__call__:cached-by-hint', mm.where(call), 'the wrapper cache is keyed by the hint itself', ok,
+           norm(cs[0])[:120] if cs else 'no cache call')
+    # the cache object, whatever it is called and wherever it is defined (here or in a sibling module)
+    tab = []
+    if cs:
+        nm = cs[0].func.value.id
+        r = repo.resolve_name(mm, call, nm)
+        dm = repo.modules.get(r.module) if getattr(r, 'module', None) else None
+        tab = [(dm, st) for st in (dm.assigns.get(r.name, []) if dm is not None else [])] or [(mm, st) for st in mm.assigns.get(nm, [])]
+    ok = bool(tab) and isinstance(tab[-1][1].value, ast.Call) and any(k.arg == 'lock_type' for k in tab[-1][1].value.keywords)
+    ctx.ob(RULE, 'wrapper-cache:locked', tab[-1][0].where(tab[-1][1]) if tab else mm.where(call), 'the cache carries its own lock', ok,
+           norm(tab[-1][1])[:100] if tab else 'cache definition not found')
